@@ -35,6 +35,7 @@ type c03Case struct {
 var c03Keys = []string{"C", "O", "OU", "CN", "SERIALNUMBER", "L", "ST", "STREET", "POSTALCODE", "1.2.3.4", "2.5.4.97"}
 var c03Values = []string{"DE", "Acme Ltd.", "a b  c", "O'Neil (x) +/:?", "Zoë Ünïcode", strings.Repeat("v", 64), strings.Repeat("long value ", 18) + "xy",
 	`"quoted"`, `'single' and <angle> [brackets]`}
+var c03BigSizes = []int{1 << 10, 32 << 10, 64<<10 - 100, 64 << 10, 64<<10 + 100, 128 << 10, 1 << 20}
 var c03Seps = []string{",", ", ", " , ", "  ,"}
 
 var c03Serials = []int64{0, 1, 127, 128, 255, 256, 1 << 31, math.MaxInt64}
@@ -122,6 +123,13 @@ func c03Enumerate(tier string, yield func(any)) {
 	}
 	for k := 0; k < 8; k++ {
 		yield(&c03Case{Kind: "fresh", First: k})
+	}
+	// large configuration files: a comment block of 1 KiB .. 1 MiB in front of each top-level key and at the end,
+	// and a subject value longer than 64 KiB; serial and unique ids are configured and must arrive
+	for size := range c03BigSizes {
+		for pos := 0; pos < 8; pos++ {
+			yield(&c03Case{Kind: "large-file", First: size, Sep: pos})
+		}
 	}
 	// separate processes started right after one another (a script looping over directories)
 	for k := 0; k < 4; k++ {
@@ -293,6 +301,62 @@ func c03Exec(x *engine.Ctx, cc any) {
 		}
 		reportOwned(x, "C03", diffs)
 		x.Outcome("ids")
+	case "large-file":
+		cfg := &refcfg.CertCfg{Path: "ent.yaml", Subject: "CN=big file, O=C03", KeyAlg: "P-224", Serial: refcfg.I64(4711),
+			IssuerUID: refcfg.Bin([]byte{1, 2, 3, 4}), SubjectUID: refcfg.Bin([]byte{5, 6, 7, 8})}
+		size := c03BigSizes[c.First]
+		if c.Sep == 7 {
+			cfg.Subject = "CN=big file, O=" + strings.Repeat("o", size) + ", C=DE"
+		}
+		d := &Dir{Certs: []*refcfg.CertCfg{cfg}}
+		placed := false
+		g := Generate(d, func(w *simfs.World) {
+			w.Put("ent.pem", FixtureKeyPEM("P-224-0"))
+			if c.Sep == 7 {
+				placed = true
+				return
+			}
+			// the comment block goes in front of the c.Sep-th top-level key (or to the end of the file)
+			block := strings.Repeat("# "+strings.Repeat("-", 61)+"\n", size/64+1)
+			lines := strings.SplitAfter(string(w.Files["ent.yaml"].Data), "\n")
+			var out strings.Builder
+			top := 0
+			for _, l := range lines {
+				if l != "" && l[0] != ' ' && l[0] != '-' && l[0] != '#' {
+					if top == c.Sep {
+						out.WriteString(block)
+						placed = true
+					}
+					top++
+				}
+				out.WriteString(l)
+			}
+			if !placed && c.Sep == 6 {
+				out.WriteString(block)
+				placed = true
+			}
+			w.Put("ent.yaml", []byte(out.String()))
+		}, drive.Default)
+		if !placed {
+			return // fewer top-level keys than positions
+		}
+		x.Nontrivial(fmt.Sprintf("large-file %d %d", c.First, c.Sep))
+		feat := map[bool]string{true: "long-subject-value", false: "comment-block"}[c.Sep == 7]
+		if !g.Res.OK() {
+			x.Violation("C03/run-failed large-file "+feat, fmt.Sprintf("size %d position %d: %v %s", size, c.Sep, g.Res.Err(), g.Res.Panic))
+			return
+		}
+		diffs, _, err := g.CompareEntity(d, "ent", "")
+		if err != nil {
+			x.Violation("C03/no-certificate large-file "+feat, fmt.Sprintf("size %d position %d: %v", size, c.Sep, err))
+			return
+		}
+		for _, df := range diffs {
+			if df.Owner == "C03" {
+				x.Violation(df.Class+" large-file "+feat, fmt.Sprintf("size %d position %d: %s", size, c.Sep, short(df.Detail, 400)))
+			}
+		}
+		x.Outcome("large-file")
 	case "fresh-processes":
 		// three runs of the built binary back to back on three copies of one directory: at least two of
 		// them start within the same second, and all drawn serials are pairwise distinct
@@ -379,7 +443,7 @@ func init() {
 	register(&engine.Check{
 		ID:          "C03",
 		Level:       "exploration",
-		Rule:        "subject strings over 11 keys (9 short names, 2 dotted OIDs) x 9 values (ASCII, inner double space, punctuation, non-ASCII, 64 and 200 characters, a value in double quotes, single quotes and brackets): every sequence of length 1..3 (4.6e5, with 4 separator spellings) through config.ParseRDNSequence vs. the documented grammar; every sequence of length 1..2 and every cyclic window of length 3..8 with rotating values through whole certificate generation without profile, with a profile listing the subject's attributes, and the same with allowOther (quick thins the profile variants of length-2 subjects to a third); 8 serials x 6 x 6 unique-id settings x {no profile, extension-only profile, subject-constraining profile} x {self-signed, issued with own key, issued for a request-only artifact}; 8 two-run forests for serial freshness, and 4 times three back-to-back processes of the built binary (serials distinct across processes started within one second). Oracle: one single-valued RDN per pair in reversed order, documented OID, text unchanged, UTF8String or (in repertoire) PrintableString, identical with and without profile; configured serial/unique ids bit for bit. non-trivial = distinct case that reached the comparison",
+		Rule:        "subject strings over 11 keys (9 short names, 2 dotted OIDs) x 9 values (ASCII, inner double space, punctuation, non-ASCII, 64 and 200 characters, a value in double quotes, single quotes and brackets): every sequence of length 1..3 (4.6e5, with 4 separator spellings) through config.ParseRDNSequence vs. the documented grammar; every sequence of length 1..2 and every cyclic window of length 3..8 with rotating values through whole certificate generation without profile, with a profile listing the subject's attributes, and the same with allowOther (quick thins the profile variants of length-2 subjects to a third); 8 serials x 6 x 6 unique-id settings x {no profile, extension-only profile, subject-constraining profile} x {self-signed, issued with own key, issued for a request-only artifact}; 8 two-run forests for serial freshness, and 4 times three back-to-back processes of the built binary (serials distinct across processes started within one second); configuration files with a comment block of 1 KiB .. 1 MiB in front of each top-level key or at the end, and a subject value of that length (configured serial and unique ids must arrive). Oracle: one single-valued RDN per pair in reversed order, documented OID, text unchanged, UTF8String or (in repertoire) PrintableString, identical with and without profile; configured serial/unique ids bit for bit. non-trivial = distinct case that reached the comparison",
 		Bound:       map[string]string{"subject length": "parser 1..3 exhaustive (thorough 1..4: 3.5e7), generation 1..2 exhaustive (thorough: length 3 over 11 keys x 2 values), 3..8 windows", "values": "7"},
 		Assumptions: []string{"values containing , = \\ or a leading # are outside the documented grammar that reaches the parser", "fresh-serial collisions have probability about 2^-150"},
 		Budget:      budgets(quickBudget, thoroughBudget),
